@@ -13,15 +13,15 @@ CHECKS = {
  "C08": ("SEQ", "model-based stateful PBT over request shapes x key states", "all builder-accepted put_or_update shapes; effects checked at return and after acknowledgement", "reference model trusted; F7 excluded and probed", "5/C08"),
  "C09": ("SEQ", "model-based stateful PBT with harness-owned clock and deadline walks", "reads 1 ns before / on / after deadlines after TTL changes, with the sweeper on and off", "reference model trusted", "5/C09"),
  "C10": ("SEQ", "model-based stateful PBT with synchronised sweeps and shard rotations", "safety after every completed sweep and bounded liveness after a full shard rotation on generated TTL histories", "sweep-counter hooks trusted", "5/C10"),
+ "C12": ("ACK", "harness-owned schedules: exhaustive enumeration of bounded shapes + generated choice vectors (proptest) + end-to-end stress", "all interleavings of done() with polls for shapes <= 2 tasks x 2 polls / 1 task x 3 polls enumerated; larger shapes sampled; 320k real puts busy-polled/parked", "schedule points + serialising turnstile trusted; x86 memory ordering not explored", "5/C12"),
+ "C14": ("SKETCH", "differential testing against an unpacked reference; exhaustive byte table + generated streams (proptest)", "256-value byte table enumerated; generated streams over all counter sizes compared counter by counter after every op; ageing checked at the exact threshold", "thin wrappers trusted to delegate; bloom filter answers observed, everything else predicted", "5/C14"),
  "C16": ("SEQ", "model-based stateful PBT: model counters vs stats_summary at every quiescent point", "all counters and hit ratio compared with the model after every op", "reference model trusted", "5/C16"),
  "C17": ("SEQ", "boundary-value stateful PBT with catch_unwind, global panic hook and liveness probe", "generated histories/configurations at arithmetic boundaries; no caller or background panic; worker/consumer/sweeper alive afterwards", "panic attribution through thread-local hook instance", "5/C17"),
 }
 PENDING = {
  "C02": "check not built yet (CONC engine in progress)",
  "C11": "check not built yet (CONC engine in progress)",
- "C12": "check not built yet (ACK engine in progress)",
  "C13": "check not built yet (CONC engine in progress)",
- "C14": "check not built yet (SKETCH engine in progress)",
  "C15": "check not built yet (CONC engine in progress)",
  "C18": "check not built yet (CONC engine in progress)",
 }
@@ -39,6 +39,8 @@ def main():
             "add_only": True,
         },
         "engines": [
+            {"name": "ACK", "path": "harness/src/ack.rs", "serves_properties": ["C12"], "kind_free_text": "turnstile-controlled schedules of the acknowledgement (enumeration + proptest) and an end-to-end stress layer"},
+            {"name": "SKETCH", "path": "harness/src/sketch.rs", "serves_properties": ["C14"], "kind_free_text": "differential tests of packed rows / count-min sketch / TinyLFU against an unpacked reference"},
             {"name": "SEQ", "path": "harness/src/seq.rs", "serves_properties": sorted(k for k, v in CHECKS.items() if "SEQ" in v[0]), "kind_free_text": "sequential model-based histories (proptest) against a reference model, harness-owned clock, worker stall windows"},
         ],
         "checks": [],
